@@ -41,22 +41,3 @@ Definition C07_seamless_num_final : Prop :=
     (snd res = JNil ->
        map eblk (fst res) = from_num start merged \/
        exists hi, final_lib c w <= hi /\ from_num start (map eblk (fst res)) = seg_num start hi canon).
-
-(* Final blocks only FROM A CURSOR: c07_prop checks `final_fold (Some (id of the cursor block))` - the first delivered
-   block extends the cursor block.  This is FALSE in the model (and, by correspondence, in the code as it is): the
-   filter's memory starts empty, so when the cursor is ahead of the hub's LIB (the consumer got its last final block from
-   merged files that the lagging hub does not yet consider final) and the hub serves the cursor itself, the hub later
-   announces as Irreversible blocks at or below the cursor block.  Every world hypothesis of the C07 theorems holds; the
-   cursor is on a final canonical block (IsOnFinalBlock). *)
-Definition C07_final_cursor_refuted : Prop :=
-  exists (U : list block) (c : jcfg) (w : world) (ps : list (N * N)) (merged_end : N) (canon forked : list block) (cu : cursor) (L : block),
-    wf_b U = true /\ lib_ok_b LNone U = true /\
-    hub_of_universe U c w /\
-    chain_ok canon /\ incl canon U /\
-    eventual_tip c w canon /\
-    j_mode c = 1 /\ j_cursor c = Some cu /\ j_filter c = 1 /\ j_stop c = 0 /\ 0 < j_bundle c /\
-    on_final_block cu = true /\ In L canon /\ bref L = cu_blk cu /\ bref L = cu_lib cu /\
-    let res := stream_run c w ps merged_end (filter (fun b => bnum b <? merged_end) canon) forked in
-    snd res = JNil /\ final_fold (Some (ri (cu_blk cu))) (fst res) = false /\
-    (* blocks at or below the cursor block are delivered *)
-    exists e, In e (fst res) /\ bnum (eblk e) <= rn (cu_blk cu).
